@@ -58,6 +58,10 @@ def reservation_scope(namespace, binding):
     namespaces = {namespace}
 
     for node in binding.references:
+        if isinstance(node, ast.Name) and isinstance(getattr(node, '_parent', None), ast.NamedExpr) and node._parent.target is node:
+            # An assignment expression target is bound outside of any comprehension it is in,
+            # but its name must still be distinct from their iteration variables
+            node = node._parent
         while node is not namespace:
             namespaces.add(node.namespace)
             node = node.namespace
